@@ -54,8 +54,10 @@ type fakePlugin struct{ rw pathutils.ReadWritePathMap }
 func (p *fakePlugin) GetInfo() *pluginregistry.ModelPluginInfo {
 	return &pluginregistry.ModelPluginInfo{Info: adminapi.ModelInfo{Name: modelName, Version: modelVersion}, ReadWritePaths: p.rw}
 }
-func (p *fakePlugin) Capabilities(ctx context.Context) *pb.CapabilityResponse { return &pb.CapabilityResponse{} }
-func (p *fakePlugin) Validate(ctx context.Context, jsonData []byte) error      { return nil }
+func (p *fakePlugin) Capabilities(ctx context.Context) *pb.CapabilityResponse {
+	return &pb.CapabilityResponse{}
+}
+func (p *fakePlugin) Validate(ctx context.Context, jsonData []byte) error { return nil }
 func (p *fakePlugin) GetPathValues(ctx context.Context, pathPrefix string, jsonData []byte) ([]*configv2.PathValue, error) {
 	return nil, nil
 }
@@ -70,7 +72,9 @@ func (fakeRegistry) Stop()  {}
 func (r fakeRegistry) GetPlugin(model configv2.TargetType, version configv2.TargetVersion) (pluginregistry.ModelPlugin, bool) {
 	return r.p, string(model) == modelName && string(version) == modelVersion
 }
-func (r fakeRegistry) GetPlugins() []pluginregistry.ModelPlugin { return []pluginregistry.ModelPlugin{r.p} }
+func (r fakeRegistry) GetPlugins() []pluginregistry.ModelPlugin {
+	return []pluginregistry.ModelPlugin{r.p}
+}
 func (fakeRegistry) NewClientFn(func(endpoint string) (adminapi.ModelPluginServiceClient, error)) {}
 
 type env struct {
